@@ -120,21 +120,24 @@ pub fn random_op(rng: &mut Rng, universe: &[usize], af: &AAFramework<usize>) -> 
 
 pub fn run(rng: &mut Rng, count: usize, thorough: bool, out: &mut Out) {
     for _ in 0..count {
-        let usize_univ = rng.range(1, 6);
+        // rarely a BIG history: many labels, hundreds of operations (vectors grow, many tombstones, long index lists)
+        let big = rng.chance(1, 300);
+        let usize_univ = if big { rng.range(20, 40) } else { rng.range(1, 6) };
         let universe: Vec<usize> = (1..=usize_univ).collect();
         let n_init = rng.below(usize_univ + 1);
         let mut init: Vec<usize> = Vec::new();
         for _ in 0..n_init {
             init.push(*rng.pick(&universe)); // repetitions on purpose
         }
-        let mut len = if thorough { rng.range(1, 60) } else { rng.range(1, 30) };
+        let mut len = if big { rng.range(150, 400) } else if thorough { rng.range(1, 60) } else { rng.range(1, 30) };
         // one history in three starts with a planned "churn" scenario: many attacks sharing an end point
         // (or a dense graph) inserted in a random order and then removed in another random order, so that
         // the per-argument index vectors go through every swap_remove position (a random mix rarely builds
         // three attacks on one target and then removes a non-last one followed by a moved one)
         let mut planned: std::collections::VecDeque<Op> = std::collections::VecDeque::new();
-        if rng.chance(1, 3) {
-            let n = rng.range(3, 6);
+        if big || rng.chance(1, 3) {
+            // (a big history plans a dense churn over 14-20 labels: hundreds of attacks inserted, most of them removed)
+            let n = if big { rng.range(14, 20) } else { rng.range(3, 6) };
             let labs: Vec<usize> = (1..=n).collect();
             for l in labs.iter() {
                 if !init.contains(l) {
@@ -142,7 +145,7 @@ pub fn run(rng: &mut Rng, count: usize, thorough: bool, out: &mut Out) {
                 }
             }
             let hub = *rng.pick(&labs);
-            let mut pairs: Vec<(usize, usize)> = match rng.below(3) {
+            let mut pairs: Vec<(usize, usize)> = match if big { 2 } else { rng.below(3) } {
                 0 => labs.iter().map(|a| (*a, hub)).collect(),            // fan-in (self-attack included)
                 1 => labs.iter().map(|b| (hub, *b)).collect(),            // fan-out
                 _ => labs.iter().flat_map(|a| labs.iter().map(move |b| (*a, *b))).collect(), // dense
